@@ -91,6 +91,7 @@ pub open spec fn resolve_ident(env: Env, name: Seq<char>) -> CelResult<CelValue>
     else { Ok(CelValue::Err(CelError::Binding { symbol: arbitrary() })) }
 }
 /// what popping a stack entry yields
+#[verifier::opaque]
 pub open spec fn pop_ok<'b>(env: Env, sv: CelStackValue<'b>, r: CelResult<CelStackValue<'b>>) -> bool {
     match sv {
         CelStackValue::Value(CelValue::Ident(name)) => {
@@ -106,6 +107,7 @@ pub open spec fn pop_ok<'b>(env: Env, sv: CelStackValue<'b>, r: CelResult<CelSta
     }
 }
 /// the value an entry denotes once popped as a value (bound calls are not values)
+#[verifier::opaque]
 pub open spec fn val_ok<'b>(env: Env, sv: CelStackValue<'b>, r: CelResult<CelValue>) -> bool {
     match sv {
         CelStackValue::BoundCall { .. } => r is Err,
@@ -128,8 +130,13 @@ pub open spec fn jump_target_ok(pc: usize, dist: i32, len: usize, r: CelResult<u
 '''
 
 
-def build():
-    U = Unit('interp')
+def stubbed(a):
+    """the same contract, known by contract only (DESIGN 3.3)"""
+    return A(ret=a.ret, requires=a.requires, ensures=a.ensures, stub=True, props=(), attrs=[x for x in a.attrs if 'decreases' not in x], spec_raw=a.spec_raw)
+
+
+def build(vm=False, group=0):
+    U = Unit(f'interp_vm_g{group}' if vm else 'interp')
     U.global_rewrites.append(C.DYN_REWRITE)
     U.raw(C.HEADER, 'header')
     U.raw(C.STANDINS, 'S1 stand-ins')
@@ -160,7 +167,7 @@ impl<'a> Interpreter<'a> {
         'binding': A(ret='r', ensures=[('kind', 'r is Binding')], props=('C01', 'C08', 'C12')),
         'attribute': A(ret='r', ensures=[('kind', 'r is Attribute')], props=('C01', 'C08')),
     }, others='stub')
-    U.extract(C.CBC, 'impl CelByteCode', fns={'len': A(ret='r', ensures=[('def', 'r == self@.len()')], props=('C10', 'C01'))}, others='stub')
+    U.extract(C.CBC, 'impl CelByteCode', fns={'len': A(ret='r', ensures=[('def', 'r == self@.len()'), ('allocation_limit', 'r <= isize::MAX')], props=('C10', 'C01'))}, others='stub')
     U.raw(r'''
 impl vstd::std_specs::core::IndexSpecImpl<usize> for CelByteCode {
     open spec fn index_req(&self, index: &usize) -> bool { *index < self@.len() }
@@ -203,11 +210,11 @@ impl vstd::std_specs::core::IndexSpecImpl<usize> for CelByteCode {
     })
 
     STK = ('C12', 'C01')
-    U.extract(IP, "impl<'a, 'b> InterpStack<'a, 'b>", fns={
+    stack_fns = {
         'new': A(ret='r', ensures=[('empty', 'r.stack@.len() == 0 && r.ctx == ctx')], props=STK),
         'push': A(ensures=[('appends', 'final(self).stack@ == old(self).stack@.push(val) && final(self).ctx == old(self).ctx')], props=STK),
         'push_val': A(ensures=[('appends', 'final(self).stack@ == old(self).stack@.push(CelStackValue::Value(val)) && final(self).ctx == old(self).ctx')], props=STK),
-        'pop': A(ret='r', attrs=['#[verifier::exec_allows_no_decreases_clause]'],
+        'pop': A(ret='r', attrs=['#[verifier::exec_allows_no_decreases_clause]'], body_begin='proof { reveal(pop_ok); }',
                  closures={0: dict(types=['CelValue'], ret="res: CelStackValue<'_>", ensures=[('wraps', 'res == CelStackValue::Value(x)')])},
                  ensures=[
             ('ctx_kept', 'final(self).ctx == old(self).ctx'),
@@ -215,7 +222,7 @@ impl vstd::std_specs::core::IndexSpecImpl<usize> for CelByteCode {
             ('removes_the_top', 'old(self).stack@.len() > 0 ==> final(self).stack@ == old(self).stack@.drop_last()'),
             ('type_then_variable_then_program_else_unbound', 'old(self).stack@.len() > 0 ==> pop_ok(old(self).ctx@, old(self).stack@.last(), r)', ('C12', 'C08', 'C01')),
         ], props=STK),
-        'pop_val': A(ret='r', attrs=['#[verifier::exec_allows_no_decreases_clause]'], ensures=[
+        'pop_val': A(ret='r', attrs=['#[verifier::exec_allows_no_decreases_clause]'], body_begin='proof { reveal(pop_ok); reveal(val_ok); }', ensures=[
             ('ctx_kept', 'final(self).ctx == old(self).ctx'),
             ('empty_stack_is_an_error', 'old(self).stack@.len() == 0 ==> r is Err && final(self).stack@ == old(self).stack@'),
             ('removes_the_top', 'old(self).stack@.len() > 0 ==> final(self).stack@ == old(self).stack@.drop_last()'),
@@ -230,8 +237,8 @@ impl vstd::std_specs::core::IndexSpecImpl<usize> for CelByteCode {
             ('ctx_kept', 'final(self).ctx == old(self).ctx'),
             ('empty_stack_is_an_error', 'old(self).stack@.len() == 0 ==> r is Err'),
         ], props=STK),
-    })
-    U.extract(IP, "impl<'a> Interpreter<'a>", fns={
+    }
+    interp_fns = {
         'new': A(ret='r', ensures=[('fresh_depth', 'r@ == (Env { has_cel: true, cel: cel@, has_bindings: true, bind: bindings@, depth: 0 })')], props=('C12', 'C01')),
         'nested_in': A(ret='r', ensures=[('continues_the_callers_depth', 'r@ == (Env { has_cel: true, cel: cel@, has_bindings: true, bind: bindings@, depth: parent@.depth })')], props=('C12', 'C01')),
         'empty': A(ret='r', ensures=[('nothing_bound', '!r@.has_cel && !r@.has_bindings && r@.depth == 0')], props=('C12', 'C01')),
@@ -246,7 +253,17 @@ impl vstd::std_specs::core::IndexSpecImpl<usize> for CelByteCode {
         ], props=STK),
         'checked_jump_target': A(ret='r', ensures=[('exact_range_test', 'jump_target_ok(pc, dist, len, r)')],
                                  requires=[('pc_is_an_index', 'pc <= isize::MAX && len <= isize::MAX')], props=('C10', 'C01')),
-        'run_raw': A(stub=True, ret='r', ensures=[('abstract_eval', 'r == spec_eval(self@, *prog, resolve)')]),
-    })
+    }
+    if not vm:
+        interp_fns['run_raw'] = A(stub=True, ret='r', ensures=[('abstract_eval', 'r == spec_eval(self@, *prog, resolve)')])
+        U.extract(IP, "impl<'a, 'b> InterpStack<'a, 'b>", fns=stack_fns)
+        U.extract(IP, "impl<'a> Interpreter<'a>", fns=interp_fns)
+    else:
+        from . import interp_vm
+        U.extract(IP, "impl<'a, 'b> InterpStack<'a, 'b>", fns={k: stubbed(v) for k, v in stack_fns.items()})
+        fns = {k: stubbed(v) for k, v in interp_fns.items()}
+        fns.update(interp_vm.vm_contracts(group))
+        U.raw(interp_vm.SPECS, 'VM step specs')
+        U.extract(IP, "impl<'a> Interpreter<'a>", fns=fns)
     U.raw(C.FOOTER, 'footer')
     return U
